@@ -78,6 +78,14 @@ impl SwiftField for Field71F {
     where
         Self: Sized,
     {
+        // The formats below are cut out by byte offsets: only ASCII can be sliced safely, and
+        // no SWIFT character set contains anything else
+        if !input.is_ascii() {
+            return Err(ParseError::InvalidFormat {
+                message: "Field 71F must contain only ASCII characters".to_string(),
+            });
+        }
+
         if input.len() < 4 {
             return Err(ParseError::InvalidFormat {
                 message: format!(
@@ -136,6 +144,14 @@ impl SwiftField for Field71G {
     where
         Self: Sized,
     {
+        // The formats below are cut out by byte offsets: only ASCII can be sliced safely, and
+        // no SWIFT character set contains anything else
+        if !input.is_ascii() {
+            return Err(ParseError::InvalidFormat {
+                message: "Field 71G must contain only ASCII characters".to_string(),
+            });
+        }
+
         if input.len() < 4 {
             return Err(ParseError::InvalidFormat {
                 message: format!(
